@@ -370,12 +370,20 @@ func c04Child(in json.RawMessage) (interface{}, error) {
 		begin.Release()
 		end.Release()
 	}
-	if cs.Gate == "close-in-merge" {
+	if cs.Gate == "close-in-merge" || cs.Gate == "close-in-persist" {
 		// two more batches wake the merger; it is held where a file merge begins (batches never wait for
 		// the merger), a reader of the current root is taken (the snapshot the merger works on, unless
 		// another introduction slipped in), Close is started, and only then is the merger let go: it
-		// finds the writer closing in the middle of its merge
-		closeHold = rg.Sched.HoldNth(0, func(p mon.Point) bool { return p.Name == "merge.begin" && p.Role == "merger" })
+		// finds the writer closing in the middle of its merge.
+		// close-in-persist (unsafe batches only, a safe batch would wait for the held persister): the
+		// persister is held after it loaded the segment file it has just written, i.e. right before it
+		// hands the persist introduction over - released after Close began, it finds the writer closing
+		closeHold = rg.Sched.HoldNth(0, func(p mon.Point) bool {
+			if cs.Gate == "close-in-persist" {
+				return p.Name == "load.end" && p.Kind == ".seg" && p.Role == "persister"
+			}
+			return p.Name == "merge.begin" && p.Role == "merger"
+		})
 		for k := 0; k < 2; k++ {
 			extraVer++
 			id := fmt.Sprintf("k%d", r.Intn(7))
@@ -412,7 +420,11 @@ func c04Child(in json.RawMessage) (interface{}, error) {
 				add("close-does-not-return", "Writer.Close started while a merge was held at its beginning did not return within 60 s after the merge was let go")
 				return res, nil
 			}
-			res.Steps["close-while-merge-in-flight"]++
+			if cs.Gate == "close-in-persist" {
+				res.Steps["close-while-persist-in-flight"]++
+			} else {
+				res.Steps["close-while-merge-in-flight"]++
+			}
 		} else {
 			closeHold.Release()
 			waitQuietRig(w, true)
@@ -454,12 +466,12 @@ func runC04(c *vk.Ctx) {
 	c.Rule("in child processes: a merge-happy writer with seeded jitter runs a generated history (26 batches, documents of all field kinds); readers are acquired after batches 4, 10, 17 (their content must equal the abstract index at that moment) plus an OpenReader reader beside the live writer, and all are kept open; after every 4th batch, around one scripted background step (segment removal / merge introduction / persist swap: fingerprint, release the step, fingerprint), at quiescence and after Writer.Close - in one fifth of the runs a Close that is started while the merger is held at the beginning of a file merge, with a reader of the root it works on - every held reader is fingerprinted twice back to back: count, all documents with stored fields, document values through sorts and aggregations, every field's dictionary, 24 generated queries; " +
 		"the plug-in wrapper reports any use of a segment after its file handle was closed. distinct non-trivial = distinct (reader kind, step kind) pairs where the step really lay between two fingerprints")
 	c.Assume("a dead child is a fault of reader use", "the fingerprint is deterministic for an immutable view (scores included)")
-	n := c.Pick(36, 1500)
+	n := c.Pick(42, 1500)
 	var cases []interface{}
 	// (a merge introduction can only be gated in runs where a FILE merge happens: double weight)
-	gates := []string{"remove", "merge-intro", "persist-swap", "none", "close-in-merge", "merge-intro"}
+	gates := []string{"remove", "merge-intro", "persist-swap", "none", "close-in-merge", "merge-intro", "close-in-persist"}
 	for i := 0; i < n; i++ {
-		cases = append(cases, c04Case{Seed: vk.SubSeed(c.Seed, fmt.Sprintf("c04-%d", i)), Dir: c.TempDir("c04-"), SegVer: 1 /* ice v2 shares one stored-field buffer per segment (known finding of C15): readers beside a running merge are judged on v1 */, Loader: []string{"mmap", "mmap", "nommap"}[i%3], Gate: gates[i%len(gates)], Unsafe: i%7 == 6})
+		cases = append(cases, c04Case{Seed: vk.SubSeed(c.Seed, fmt.Sprintf("c04-%d", i)), Dir: c.TempDir("c04-"), SegVer: 1 /* ice v2 shares one stored-field buffer per segment (known finding of C15): readers beside a running merge are judged on v1 */, Loader: []string{"mmap", "mmap", "nommap"}[i%3], Gate: gates[i%len(gates)], Unsafe: gates[i%len(gates)] == "close-in-persist" || i%11 == 10})
 	}
 	results := vk.RunChildren(c.Scratch(), "c04run", cases, vk.ChildOpts{PerChild: 2, Parallel: runtime.NumCPU(), CaseTimeout: 120 * time.Second, RlimitMB: 4096})
 	for i, res := range results {
